@@ -17,6 +17,7 @@ PROPS = ['C19']
 HARNESS = ['zz_netlistener_test.go']
 SLUG = 'backlog-orphan-pins-session'
 SLUG_DW = 'write-after-session-teardown-segv'
+SLUG_GH = 'late-data-resurrects-closed-stream'
 
 INVARIANTS = ('TypeOK CounterNonNeg CounterExact AtMostOnce Surfaces AcceptNotStuck BacklogSane ReadNotStuck '
               'NoPrematureEnd HeldStaysUsable WaiterOnlyAfterClose SessionEndsModuloOrphan')
@@ -225,10 +226,17 @@ def pinned_state(st, ns, nk):
     return False
 
 
+import threading
+TLC_SLOTS = threading.Semaphore(6)   # at most 6 TLC processes of this check at a time, 4 workers each (shared machine)
+TLC_WORKERS = 4
+
+
 def build_graph(g, out, errs):
     try:
         t0 = time.time()
-        res, nodes, edges, inits = tlc.dump_graph('NetListener', 'mc.cfg', timeout=900, extra_files={'mc.cfg': gcfg(g)})
+        with TLC_SLOTS:
+            res, nodes, edges, inits = tlc.dump_graph('NetListener', 'mc.cfg', timeout=900, workers=TLC_WORKERS,
+                                                      extra_files={'mc.cfg': gcfg(g)})
         if res.violation or not res.ok or not edges:
             errs.append((g['name'], res))
             return
@@ -305,6 +313,7 @@ def run(prop, tier, seed, replay=None):
     known = core.known_findings()
     listed = (prop, SLUG) in known
     listed_dw = (prop, SLUG_DW) in known
+    listed_gh = (prop, SLUG_GH) in known
     if replay:
         return do_replay(ck, replay, listed)
 
@@ -321,12 +330,18 @@ def run(prop, tier, seed, replay=None):
                'steps': [fstep('connect', [1], 'ok'), fstep('open', [1, 1], 'ok'), fstep('write', [0, 1, 1, 2], 'ok'),
                          dict(fstep('accept', [], 'conn'), rn=[1, 1]), fstep('sessclose', [1], 'ok'),
                          fstep('write', [1, 1, 1, 2], 'err')]}
+    # staged interleaving found by TLC (Sync = FALSE, AtMostOnce): the client's second Write is in flight when the
+    # server closes the conn; the event loop is held off during the two calls
+    ghost = {'name': 'late-data-probe', 'ns': 1, 'nk': 1, 'bcap': 1, 'unit': 100, 'small': False,
+             'steps': [fstep('connect', [1], 'ok'), fstep('open', [1, 1], 'ok'), fstep('write', [0, 1, 1, 1], 'ok'),
+                       dict(fstep('accept', [], 'conn'), rn=[1, 1]), fstep('race_write_sclose', [1, 1, 1], 'ok'),
+                       fstep('accept', [], 'park')]}
     probes = {}
 
-    def probe_run(key, path):
+    def probe_run(key, paths):
         probes[key] = gorun.run_harness('^TestVS_NetListener$', HARNESS, None, timeout=180, inputs={'job': {
-            'graphs': [], 'paths': [path], 'seed': ck.seed, 'workers': 1, 'budget_ms': 60000, 'known': True,
-            'units': [path['unit']]}})
+            'graphs': [], 'paths': paths, 'seed': ck.seed, 'workers': 1, 'budget_ms': 60000, 'known': True,
+            'units': [3]}})
 
     def tlc_round(fixed):
         graphs = [dict(g) for g in QUICK_GRAPHS + (THOROUGH_GRAPHS if ck.tier == 'thorough' else [])]
@@ -340,27 +355,35 @@ def run(prop, tier, seed, replay=None):
         built, errs, design = {}, [], {}
 
         def design_run(g, key, sync, inv, timeout):
-            design[key] = tlc.run('NetListener', 'mc.cfg', timeout=timeout, extra_files={'mc.cfg': gcfg(g, sync=sync, inv=inv)})
+            with TLC_SLOTS:
+                design[key] = tlc.run('NetListener', 'mc.cfg', timeout=timeout, workers=TLC_WORKERS,
+                                      extra_files={'mc.cfg': gcfg(g, sync=sync, inv=inv)})
 
         ths = [threading.Thread(target=build_graph, args=(g, built, errs)) for g in graphs]
         for g in dcfgs:
-            ths.append(threading.Thread(target=design_run, args=(g, g['name'], False, INVARIANTS.replace('AtMostOnce ', ''),
+            ths.append(threading.Thread(target=design_run, args=(g, g['name'], False, INVARIANTS.replace('AtMostOnce ', 'AtMostOnceModuloLateData '),
                                                                  300 if ck.tier == 'quick' else 1500)))
         # the strict form of "sessions end" on the design: expected to be violated while the known finding is there
         ths.append(threading.Thread(target=design_run, args=(graphs[0], 'strict-session-ends', True, 'SessionEnds', 300)))
-        # "a stream surfaces at most once" with interleaved delivery
-        ths.append(threading.Thread(target=design_run, args=(graphs[0], 'strict-at-most-once', False, 'AtMostOnce', 300)))
+        # "a stream surfaces at most once" with interleaved delivery and two writes: expected to be violated while the
+        # known finding late-data-resurrects-closed-stream is there
+        ths.append(threading.Thread(target=design_run, args=(
+            dict(name='amo', ns=1, nk=1, ws=[1], rs=[3], maxw=2, bcap=1, feat=['drainfix'] if fixed else []),
+            'strict-at-most-once', False, 'AtMostOnce', 300)))
         return graphs, built, errs, design, ths
 
     graphs, built, errs, design, ths = tlc_round(False)
-    pths = [threading.Thread(target=probe_run, args=('orphan', probe)), threading.Thread(target=probe_run, args=('dw', dwprobe))]
-    ck.log('TLC: %d graph configs + %d design configs; 2 probes of the real code' % (len(graphs), len(ths) - len(graphs)))
+    pths = [threading.Thread(target=probe_run, args=('orphan', [probe, ghost])),
+            threading.Thread(target=probe_run, args=('dw', [dwprobe]))]
+    ck.log('TLC: %d graph configs + %d design configs; 3 probes of the real code' % (len(graphs), len(ths) - len(graphs)))
     for t in ths + pths:
         t.start()
     for t in ths + pths:
         t.join()
     gp0 = probes.get('orphan')
-    if gp0 is None or gp0.result is None or gp0.result.get('paths', 0) != 1 or gp0.result.get('violations') \
+    pv = (gp0.result.get('violations') or []) if gp0 is not None and gp0.result else []
+    ghost_v = [v for v in pv if v['path']['name'] == 'late-data-probe' and 'surfaced 2 times' in v['detail']]
+    if gp0 is None or gp0.result is None or gp0.result.get('paths', 0) != 2 or len(pv) != len(ghost_v) \
             or gp0.result.get('drift_count'):
         ck.inconc('the orphan probe could not be executed on the real code: %s' %
                   (json.dumps(gp0.result)[:600] if gp0 is not None and gp0.result else (gp0.out[-800:] if gp0 else '')))
@@ -368,6 +391,16 @@ def run(prop, tier, seed, replay=None):
     fixed = gp0.result.get('known_hits', 0) == 0
     ck.cov['listener_variant_replayed'] = ('drainfix (listener.Close drains the backlog: probe session ended)' if fixed else
                                            'pinned (probe: session stays open after listener.Close with a backlogged stream)')
+    if ghost_v:
+        hist = ('Connect ; OpenStream ; client Write ; Accept ; [event loop held: client Write ; server conn.Close] ; Accept '
+                '-> returns a second conn for the same stream')
+        if listed_gh:
+            ck.known(SLUG_GH, '%s [reproduced on real code: %s]' % (known.get((prop, SLUG_GH), ''), hist))
+        else:
+            ck.violation('%s  (staged history: %s)' % (ghost_v[0]['detail'], hist),
+                         {'kind': 'path', 'path': ghost, 'detail': ghost_v[0]['detail'], 'slug': SLUG_GH})
+    elif listed_gh:
+        ck.notes.append('the listed known finding %s no longer reproduces on this tree' % SLUG_GH)
     if fixed:
         ck.log('the tree has the repaired listener: TLC again with Feat + drainfix')
         graphs, built, errs, design, ths = tlc_round(True)
@@ -384,7 +417,7 @@ def run(prop, tier, seed, replay=None):
     if errs:
         return ck.finish()
     ck.cov['tlc_configs'] = []
-    ck.cov['exhaustive'] = True
+    ck.cov['exhaustive'] = True            # TLC: exhaustive for the stated constants; replay completeness: see replay_complete
     jgraphs, witness, witness_dw = [], None, None
     for g in graphs:
         res, nedges, mg, wall = built[g['name']]
@@ -452,7 +485,7 @@ def run(prop, tier, seed, replay=None):
     # ---- the real code walks the graphs
     quick = ck.tier == 'quick'
     job = {'graphs': jgraphs, 'paths': [witness] if witness else [], 'seed': ck.seed, 'workers': 10,
-           'max_attempts': 6, 'budget_ms': 45000 if quick else 900000, 'max_path_len': 60, 'known': listed,
+           'max_attempts': 6, 'budget_ms': 40000 if quick else 600000, 'max_path_len': 120, 'known': listed,
            'prune_dead_write': prune,
            'units': [1, 3, 64, 100, 1000, 5000] if quick else [1, 3, 64, 100, 1000, 5000, 8172, 8173, 40000, 140000]}
     wd = tlc.scratch('vnl')
@@ -482,12 +515,14 @@ def evaluate(ck, r, listed, known, had_witness):
     if r['paths'] == 0 or r.get('env_aborted', 0) > r['paths']:
         ck.inconc('the real code could not be driven: %d paths executed, %d abandoned because the 1s handshake time-out of '
                   'the library expired 4 times in a row (machine overloaded?)' % (r['paths'], r.get('env_aborted', 0)))
-    ck.cov['real_code_counters'] = r.get('counters', {})
+    ck.cov['real_code_counters'] = {k: v for k, v in (r.get('counters') or {}).items() if not k.startswith('us_')}
+    ck.cov['real_code_time_us'] = {k: v for k, v in (r.get('counters') or {}).items() if k.startswith('us_')}
     ck.cov['graph_cover'] = r.get('graphs', [])
     tot = sum(g['edges'] for g in r.get('graphs', []))
     cov = sum(g['covered'] for g in r.get('graphs', []))
     ck.cov['macro_edges_total'] = tot
     ck.cov['macro_edges_replayed'] = cov
+    ck.cov['replay_complete'] = bool(tot) and cov == tot
     if tot and cov < tot:
         ck.notes.append('%d of %d macro edges not replayed (time budget, or alternatives of Go\'s random select that did not '
                         'come up in %d attempts)' % (tot - cov, tot, 6))
